@@ -35,16 +35,24 @@ BoxOf(pbox, stack) ==
          [] top.k = "cr" -> LET c == CapRect(top.a, below) IN <<0, 0, c[3], c[4]>>
          [] top.k = "cc" -> below
 
+\* The documented coordinate shift of a crop layer: the origin of the cropped target coincides with the top left corner
+\* of (area /\ parent box); a ZERO SIZED area whose corner lies inside the parent keeps its corner (draw_target/mod.rs:
+\* "its coordinate system is shifted so that the origin coincides with area.top_left").
+CropShift(a, below) ==
+  IF IsEmpty(a) /\ ~IsEmpty(below) /\ InRect(below, <<a[1], a[2]>>) THEN <<a[1], a[2]>>
+  ELSE LET c == CapRect(a, below) IN <<c[1], c[2]>>
 \* a crop layer whose area misses its parent has no documented coordinate shift
 WellDefined(pbox, stack) ==
-  \A i \in 1..Len(stack) : stack[i].k = "cr" => ~IsEmpty(CapRect(stack[i].a, BoxOf(pbox, SubSeq(stack, 1, i - 1))))
+  \A i \in 1..Len(stack) : stack[i].k = "cr" =>
+     LET below == BoxOf(pbox, SubSeq(stack, 1, i - 1))  a == stack[i].a IN
+     ~IsEmpty(CapRect(a, below)) \/ (IsEmpty(a) /\ ~IsEmpty(below) /\ InRect(below, <<a[1], a[2]>>))
 
 \* one assignment <<x, y, c>> in the coordinates of layer i, pushed down one layer; <<>> if clipped away
 PushDown(pbox, stack, i, e) ==
   LET ly == stack[i]  below == BoxOf(pbox, SubSeq(stack, 1, i - 1)) IN
   CASE ly.k = "tr" -> <<e[1] + ly.o[1], e[2] + ly.o[2], e[3]>>
     [] ly.k = "cl" -> IF InRect(CapRect(ly.a, below), <<e[1], e[2]>>) THEN e ELSE <<>>
-    [] ly.k = "cr" -> LET c == CapRect(ly.a, below) IN <<e[1] + c[1], e[2] + c[2], e[3]>>
+    [] ly.k = "cr" -> LET c == CropShift(ly.a, below) IN <<e[1] + c[1], e[2] + c[2], e[3]>>
     [] ly.k = "cc" -> <<e[1], e[2], ly.cmap[e[3]]>>
 RECURSIVE PushToParent(_, _, _, _)
 PushToParent(pbox, stack, i, e) ==
@@ -70,7 +78,7 @@ MapPointDown(pbox, stack, i, p) ==
   ELSE LET ly == stack[i] IN
        MapPointDown(pbox, stack, i - 1,
          CASE ly.k = "tr" -> <<p[1] + ly.o[1], p[2] + ly.o[2]>>
-           [] ly.k = "cr" -> LET c == CapRect(ly.a, BoxOf(pbox, SubSeq(stack, 1, i - 1))) IN <<p[1] + c[1], p[2] + c[2]>>
+           [] ly.k = "cr" -> LET c == CropShift(ly.a, BoxOf(pbox, SubSeq(stack, 1, i - 1))) IN <<p[1] + c[1], p[2] + c[2]>>
            [] OTHER -> p)
 HasClip(stack) == \E i \in 1..Len(stack) : stack[i].k = "cl"
 \* parent points that every clip layer lets through
